@@ -90,6 +90,22 @@ def span_str(sp):
     return "%s:%d:%d" % (sp["f"], sp["l"], sp["c"])
 
 
+_PARAM_TABLE = None
+
+
+def _param_table():
+    global _PARAM_TABLE
+    if _PARAM_TABLE is None:
+        import json as _json
+        import os as _os
+        path = _os.path.join(_os.path.dirname(_os.path.dirname(_os.path.abspath(__file__))), "tables", "param_names.json")
+        try:
+            _PARAM_TABLE = _json.load(open(path)) if not _os.environ.get("VERIF_NO_PARAM_TABLE") else {}
+        except OSError:
+            _PARAM_TABLE = {}
+    return _PARAM_TABLE
+
+
 class Body:
     def __init__(self, j, crate):
         self.j = j
@@ -108,6 +124,22 @@ class Body:
         self._succ = None
         self._pred = None
         self._defs = None
+        self._apply_reference_names()
+
+    def _apply_reference_names(self):
+        """Parameters and captured variables are identified by position: the names the rules use are those recorded in
+        tables/param_names.json for this function (arity must agree), so renaming a parameter, a closure parameter or a captured
+        local in the source does not change any verdict. Functions not in the table keep their source names."""
+        ref = _param_table().get(self.name)
+        if not ref:
+            return
+        if len(ref.get("params", [])) == self.arg_count:
+            for i, n in enumerate(ref["params"]):
+                if n is not None and self.locals[i + 1].get("name") is not None:
+                    self.locals[i + 1] = dict(self.locals[i + 1], name=n)
+        ups = self.j.get("upvars")
+        if ups and len(ref.get("upvars", [])) == len(ups):
+            self.j = dict(self.j, upvars=[dict(u, name=n) if n is not None else u for u, n in zip(ups, ref["upvars"])])
 
     # ---- CFG ----
     def term(self, b):
